@@ -48,7 +48,7 @@ HD = "antismash/detection/hmm_detection/__init__.py"
 PROTO = "antismash/common/secmet/features/protocluster.py"
 PREP = "antismash/common/secmet/features/prepeptide.py"
 
-B, N = "broken", "neutral"
+B, N, U = "broken", "neutral", "broken-undecided"
 
 # (property, kind, name, file, old, new, rule expected to fire for broken variants)
 VARIANTS: List[Tuple[str, str, str, str, str, str, str]] = [
@@ -254,12 +254,16 @@ def _run_variant(args) -> Tuple[str, str, str, str]:
         ctx.finish()
         new, _ = report.verdict(ctx, report.load_known())
     except AnalysisError as err:
-        if kind == B:
+        if kind in (B, U):
             # a broken variant that leaves the recognised idioms is "cannot analyse", which is also not a pass
             return label, kind, "ok", f"analysis error (not a pass): {str(err)[:100]}"
         return label, kind, "mismatch", f"neutral variant made the analysis fail: {str(err)[:160]}"
     except Exception as err:  # pylint: disable=broad-except
         return label, kind, "mismatch", f"internal error {type(err).__name__}: {str(err)[:160]}"
+    if kind == U:
+        rules = sorted({ob.rule for ob in new})
+        return label, kind, "ok", (f"now reported by {rules}: update its meta.json" if new else
+                                   "not reported, as recorded (the clause it breaks is listed as undecided)")
     if kind == B:
         rules = sorted({ob.rule for ob in new})
         if not new:
@@ -311,7 +315,15 @@ def jobs_for(prop: str, repo_root: str, typed: bool) -> List[tuple]:
                 continue
             patch = os.path.join(seeds, entry, "patch.diff")
             if os.path.exists(patch):
-                jobs.append((prop, B, f"seeded change {entry}", _overlay_from_patch(repo_root, patch), "", repo_root))
+                kind = B
+                meta = os.path.join(seeds, entry, "meta.json")
+                try:
+                    with open(meta, encoding="utf-8") as handle:
+                        if json.load(handle).get("detected_by", "") is None:
+                            kind = U  # recorded in its meta.json and in DESIGN.md as a change no rule decides
+                except (OSError, ValueError):
+                    pass
+                jobs.append((prop, kind, f"seeded change {entry}", _overlay_from_patch(repo_root, patch), "", repo_root))
     return jobs
 
 
@@ -333,6 +345,7 @@ def run(prop: str, repo_root: str) -> int:
           f"mismatch={len(bad)} stale={len(stale)} wall={time.time() - start:.1f}s")
     summary = {"variants": len(results), "broken_detected": sum(1 for r in results if r[1] == B and r[2] == "ok"),
                "neutral_clean": sum(1 for r in results if r[1] == N and r[2] == "ok"),
+               "broken_recorded_undecided": sum(1 for r in results if r[1] == U),
                "mismatch": len(bad), "stale": len(stale), "results": [list(r) for r in results]}
     _merge_into_evidence(prop, summary)
     if bad:
